@@ -40,7 +40,7 @@ theorem add_missing_refines (input : List Scaffold) (b : Build) (g : Gap) (hg : 
   refine whole_refines b s hs habs _ ?_ _ ?_ input
   · -- one pass of `for scffld in input_asm.scaffolds`
     intro sc st b' hsim
-    obtain ⟨heap, s1, added⟩ := st
+    obtain ⟨heap, s1, added, rfl, hsim⟩ := hsim
     refine outer_step b g hg found hkeys (fun s sc => Gen.Imp.ScaffoldNamer_make_scaffold_name s sc none) hmk hwf
       sc heap s1 added b' hsim _ ?_ ?_ ?_ _ ?_ ?_
     · -- the contig was placed
